@@ -2,6 +2,7 @@
 from __future__ import annotations
 
 import ast
+import types
 
 
 def string_standin(ctx):
@@ -444,3 +445,132 @@ def class_swap_outcome(ctx, cq: str, method: str, on_args=(True,), off_args=(Fal
     out.off_yielded = bool(snap)
     out.orig = orig
     return out
+
+
+# ------------------------------------------------------------------------------------------------------------------
+# apply_detection of the detection item transformations, interpreted on a stand-in detection
+
+DIT_BASE = "sigma.processing.transformations.base.DetectionItemTransformation"
+
+
+def apply_detection_outcomes(ctx, cq: str):
+    """``cq.apply_detection`` (looked up over the MRO in the source) interpreted (sa.tabulate, Proxy) on the stand-in
+    detection [A, B, [C]] with a stand-in apply_detection_item and a stand-in processing item whose detection item
+    condition matches A and C only. One outcome per (way the item is changed, modifiers left on it, type of its values,
+    processing item present): which items apply_detection_item was asked about, which were replaced, voided, re-synced
+    and marked as processed. Shared by C06.R2 (voiding protocol), C13.R2 (gate) and C13.R6 (marks)."""
+    from ..tabulate import Proxy, call_method, Raised
+    from ..prog import AnalysisError
+    prog = ctx.prog
+    cache = ctx.__dict__.setdefault("_apply_detection_outcomes", {})
+    m = prog.lookup_method(cq, "apply_detection")
+    if m is None:
+        raise AnalysisError(f"anchor vanished: method {cq}.apply_detection")
+    key = (m.qual, tuple(q for q in prog.mro(cq) if q in prog.classes and prog.is_subclass(q, DIT_BASE)))
+    if key in cache:
+        return cache[key]
+
+    class SigmaType: pass
+    class SigmaString(SigmaType):
+        def __init__(self, s): self.s = s
+        def __repr__(self): return f"S({self.s})"
+        def __eq__(self, o): return type(o) is type(self) and o.s == self.s
+        __hash__ = None
+    class SigmaNumber(SigmaString): pass
+    class SigmaBool(SigmaString): pass
+    class SigmaNull(SigmaString): pass
+    class SigmaRegularExpression(SigmaString): pass
+    class SigmaCasedString(SigmaString): pass
+    class SigmaModifier: pass
+    class SigmaValueModifier(SigmaModifier): pass
+    class SigmaListModifier(SigmaModifier): pass
+    class SigmaBase64Modifier(SigmaValueModifier): pass
+    class SigmaAllModifier(SigmaListModifier): pass
+
+    class SigmaDetectionItem:
+        def __init__(self, name, value, modifiers, matches):
+            self.name, self.field, self.value, self.modifiers, self.matches = name, (None if name.startswith("C") else "f"), value, list(modifiers), matches
+            self.original_value = self.at_load = [SigmaString("loaded")]
+            self.voided = False
+            self.applied_processing_items = set()
+        def disable_conversion_to_plain(self):
+            self.voided = True
+            self.original_value = None
+        def __repr__(self): return self.name
+
+    class DeleteSigmaDetectionItem(SigmaDetectionItem): pass
+
+    class SigmaDetection:
+        def __init__(self, items): self.detection_items = list(items)
+
+    env = {k: v for k, v in locals().items() if isinstance(v, type)}
+    # every value modifier class the source defines, by name (a guard may single some of them out)
+    real_value_mods = []
+    for q in sorted(prog.subclasses("sigma.modifiers.SigmaValueModifier")):
+        nm = q.rsplit(".", 1)[-1]
+        if nm not in env:
+            env[nm] = type(nm, (SigmaValueModifier,), {})
+            real_value_mods.append(env[nm])
+    if len(real_value_mods) < 10:
+        raise AnalysisError(f"only {len(real_value_mods)} value modifier classes found in sigma.modifiers (>= 10 confirmed)")
+    IK = {"max_steps": 20000}
+    out = []
+    scenarios = []
+    for mode in ("rebind", "inplace", "new", "none"):
+        for mods, mname in (((), "no modifiers"), ((SigmaBase64Modifier,), "a value modifier"), ((SigmaAllModifier,), "a list modifier")):
+            for vt, vname in ((SigmaString, "strings"), (SigmaRegularExpression, "regular expressions"), (SigmaCasedString, "case-sensitive strings")):
+                for with_pi in (True, False):
+                    if mode in ("new", "none") and (mods or vt is not SigmaString):
+                        continue
+                    scenarios.append((mode, mods, mname, vt, vname, with_pi))
+    for vm in real_value_mods:
+        scenarios.append(("rebind", (vm,), f"the value modifier {vm.__name__}", SigmaString, "strings", False))
+    if True:
+        if True:
+            if True:
+                for mode, mods, mname, vt, vname, with_pi in scenarios:
+                    a = SigmaDetectionItem("A", [vt("a")], mods, True)
+                    b = SigmaDetectionItem("B", [vt("b")], mods, False)
+                    c = SigmaDetectionItem("C", [vt("c")], mods, True)
+                    inner = SigmaDetection([c])
+                    det = SigmaDetection([a, b, inner])
+                    asked, marked, results = [], [], {}
+                    def apply_detection_item(item, _mode=mode, _vt=vt, _mods=mods, _asked=asked, _results=results):
+                        _asked.append(item)
+                        if _mode == "none":
+                            return None
+                        if _mode == "rebind":
+                            item.value = [_vt(item.value[0].s + "'")]
+                            res = item
+                        elif _mode == "inplace":
+                            item.value[0] = _vt(item.value[0].s + "'")
+                            res = item
+                        else:
+                            res = SigmaDetectionItem(item.name + "new", [_vt(item.value[0].s + "'")], _mods, item.matches)
+                        _results[item.name] = res
+                        return res
+                    pi = type("PI", (), {"match_detection_item": lambda self_, it: it.matches, "identifier": "pi"})() if with_pi else None
+                    me = Proxy(prog, cq, env, {"processing_item": pi, "_pipeline": None, "apply_detection_item": apply_detection_item,
+                                               "processing_item_applied": lambda d, _m=marked: _m.append(d)}, interp_kwargs=IK)
+                    raised = None
+                    try:
+                        call_method(prog, cq, "apply_detection", me, env, det, interp_kwargs=IK)
+                    except Raised as ex:
+                        raised = ex
+                    items = {}
+                    for orig, holder, idx in ((a, det, 0), (b, det, 1), (c, inner, 0)):
+                        now = holder.detection_items[idx] if idx < len(holder.detection_items) else None
+                        res = results.get(orig.name)
+                        items[orig.name] = types.SimpleNamespace(
+                            asked=any(x is orig for x in asked), result=res, stored=res is not None and now is res, now=now,
+                            marked=res is not None and any(x is res for x in marked),
+                            voided=res is not None and res.voided,
+                            resynced=res is not None and not res.voided and res.original_value is not res.at_load
+                            and res.original_value == res.value,
+                            resync_shared=res is not None and res.original_value is res.value,
+                            stale=res is not None and not res.voided and res.original_value is res.at_load)
+                    out.append(types.SimpleNamespace(mode=mode, mods=mname, value_modifiers=any(issubclass(x, SigmaValueModifier) for x in mods), any_mods=bool(mods), values=vname,
+                                                     plain_values=vt is SigmaString, with_pi=with_pi, items=items, raised=raised, asked=[x.name for x in asked],
+                                                     marked=[getattr(x, "name", repr(x)) for x in marked], inner_same=det.detection_items[2] is inner if len(det.detection_items) > 2 else False))
+    cache[key] = (m, out)
+    return m, out
